@@ -732,6 +732,14 @@ func goCode(root string, unit string) string {
 		header("Model.GoSem", "Model.GoSlices", "Model.GoCtl", "Model.Ansi", "Model.Style", "Generated.GoAnsi", "Generated.GoFeed", "Generated.GoHistory")
 		text, errs := translateView(root)
 		emit("ui/ui.go ((*State).view)", text, errs)
+	case "select":
+		header("Model.GoSem", "Model.GoJson", "Model.Link", "Model.Present", "Generated.GoLink", "Generated.GoStyle")
+		text, errs := translateSelect(root, "pub", map[string][]string{
+			"Post":     {"SelectLink", "Media", "supplement"},
+			"Activity": {"SelectLink"},
+			"Actor":    {"SelectLink", "ProfilePic", "Banner"},
+		}, "pub/link.go")
+		emit("pub/post.go, pub/activity.go, pub/actor.go (link numbering and selection)", text, errs)
 	default:
 		b.WriteString("-- unknown unit " + unit + "\n")
 	}
